@@ -24,9 +24,10 @@ LIBSRC = {
     "pkg_x/two.py": "from mpilot.commands import Command\nclass CmdTwo(Command):\n    name = 'Two'\n",
     "pkg_x/sub/__init__.py": "",
     "pkg_x/sub/deep.py": "from mpilot.commands import Command\nclass CmdDeep(Command):\n    pass\n",
+    "lib_sub.py": "from mpilot.libraries.eems import basic\nclass Sum(basic.Sum):\n    pass\nclass CmdSub(basic.Copy):\n    pass\n",
     "pkg_xy.py": "from mpilot.commands import Command\nclass CmdXY(Command):\n    pass\nclass CmdOne(Command):\n    pass\n",
 }
-USER = ["lib_a", "lib_ab", "lib_c", "pkg_x", "pkg_x.one", "pkg_x.sub", "pkg_xy"]
+USER = ["lib_a", "lib_ab", "lib_c", "pkg_x", "pkg_x.one", "pkg_x.sub", "pkg_xy", "lib_sub"]
 BUILTIN = ["mpilot.libraries.eems.basic", "mpilot.libraries.eems.csv", "mpilot.libraries.eems.netcdf",
            "mpilot.libraries.eems.fuzzy", "mpilot.libraries.eems"]
 DYN_MODULES = ["dyn_mod", "lib_a_dyn", "lib", "pkg_xyz", "mpilot.libraries.eems.basic_extra", "pkg"]
@@ -59,8 +60,11 @@ def rhistory(rnd):
         k = rnd.random()
         if k < 0.6:
             h.append(["program", rlibs(rnd)])
-        elif k < 0.8:
+        elif k < 0.72:
             h.append(["define", rnd.choice(DYN_MODULES), rnd.choice(DYN_NAMES)])
+        elif k < 0.8:   # ... a class that extends the registered command whose name it takes (defining a class is not requesting a library)
+            h.append(["import", rnd.choice(["mpilot.libraries.eems.basic", "lib_a", "pkg_x.one"])])
+            h.append(["define", rnd.choice(DYN_MODULES), rnd.choice(DYN_NAMES), "sub"])
         else:
             h.append(["import", rnd.choice(USER + BUILTIN[:4])])
     return h
@@ -111,6 +115,11 @@ def main():
         ([["define", "lib_a_dyn", "Shared"]], ["lib_a"]),
         ([["define", "dyn_mod", "Sum"]], ["mpilot.libraries.eems.basic"]),
         ([["define", "mpilot.libraries.eems.basic_extra", "Sum"]], ["mpilot.libraries.eems.basic"]),
+        ([["import", "mpilot.libraries.eems.basic"], ["define", "dyn_mod", "Sum", "sub"]], ["mpilot.libraries.eems.basic", "mpilot.libraries.eems.fuzzy"]),
+        ([["import", "lib_a"], ["define", "lib_a_dyn", "Shared", "sub"]], ["lib_a"]),
+        ([["import", "lib_sub"]], ["mpilot.libraries.eems.basic"]),
+        ([["program", ["lib_sub"]]], ["mpilot.libraries.eems.basic", "mpilot.libraries.eems.csv"]),
+        ([], ["lib_sub", "mpilot.libraries.eems.basic"]),
     ]
     for h, libs in corpus:
         jobs.append((h, libs))
@@ -180,7 +189,7 @@ def main():
                               libs, short(a), h, short(b)),
                           "replay": {"history": h, "libraries": libs, "after_history": a, "without_earlier_programs": b}})
     # requesting libraries that define the same command name must fail at construction
-    for libs, must in ((("lib_a", "lib_ab"), "dup"), (("pkg_x", "pkg_xy"), "dup"), (("mpilot.libraries.eems",), "dup")):
+    for libs, must in ((("lib_a", "lib_ab"), "dup"), (("pkg_x", "pkg_xy"), "dup"), (("mpilot.libraries.eems",), "dup"), (("lib_sub", "mpilot.libraries.eems.basic"), "dup")):
         b = baselines.get(libs)
         if b is not None and b[0] != must:
             fails.append({"sig": "C19:duplicate-accepted", "what": "Program(libraries=%r) did not fail although two libraries define the same command name: %s" % (libs, short(b)),
